@@ -6,8 +6,5 @@ Local Open Scope string_scope.
 Definition avoid_src : list string := ["BranchStmt.Label"; "Field.Names"; "File.Name"; "FuncDecl.Name"; "ImportSpec.Name"; "LabeledStmt.Label"; "SelectorExpr.Sel"; "TypeSpec.Name"; "ValueSpec.Names"].
 
 Definition resolver_sources_pinned : list (string * bool) := [
-  ("decorator.resolvePath", true);
   ("decorator.stripVendor", true);
-  ("goast.ResolveIdent", true);
-  ("goast.imports", true);
-  ("gotypes.ResolveIdent", true)].
+  ("goast.imports", true)].
